@@ -47,7 +47,31 @@ def oracle(ctx, stream, case_lines, rep):
     return None
 
 
+# Known findings of C03 that known-findings.json does not carry yet (sent to the coordinator, notes/C03.md "Review
+# round 2"); a local copy is used until it does, so that exactly this input class is a KNOWN-FINDING line and anything
+# else still fails (BUILDING.md: "test with a local copy of the entry").
+LOCAL_KNOWN = [{
+    "property_id": "C03",
+    "status": "known",
+    "fingerprint": "e2e:delta-ne-fresh:ondemand:service-member-added-after-subscribe",
+    "what": ("known: property=C03 an on-demand WDS client that subscribed to a SERVICE (namespace/hostname or VIP) was answered with the "
+             "service and its workloads of that moment; a workload that becomes a member later (selector / label change, pod created) is "
+             "never pushed to it: the Service resource itself does not change, and pushes match subscriptions by resource name only "
+             "(AddressesUpdated intersected with ResourceNames), where the new member's name is not. A fresh client with the same "
+             "subscription gets the member (same root cause as alias-key-created-after-subscribe)"),
+    "witness": {"corpus": "harness/e2e/corpus/c03.zt-ondemand-service-member-added-after-subscribe.json"},
+}]
+
+
+def add_local_known(ctx):
+    have = {k.get("fingerprint") for k in ctx.known}
+    for k in LOCAL_KNOWN:
+        if k["fingerprint"] not in have:
+            ctx.known.append(k)
+
+
 def run(ctx):
+    add_local_known(ctx)
     ctx.rule = ("book: random scripts of generator outputs (plain / delta-aware, nil / empty / resources, deleted, usedDelta, incremental), "
                 "delta and SotW requests (subscribe/unsubscribe/initial versions, nonce current/stale/empty, NACK), pushes and send failures over 10 xDS types; "
                 "equiv/equivd: random histories of world changes, client (re)subscriptions and pushes for 7 types with world-based generators; "
@@ -83,10 +107,13 @@ def run(ctx):
                         ctx.violation(found[0], found[1], found[2], True)
     # the statement itself on the REAL generators: one history played to a SotW and a delta client of the same proxy
     # on a real DiscoveryServer (CDS/EDS/LDS/RDS; ztunnel flavour: WDS vs fresh clients), compared at every step
-    e2e_common.run(ctx, "c03", ctx.n(12, 300))
+    # (3/5 sidecar incl. inbound services, PeerAuthentication, EnvoyFilter / ECDS; 1/5 router with gateway-filtered
+    # clusters; 1/4 ztunnel); the shards are processes playing every n-th case side by side
+    e2e_common.run(ctx, "c03", ctx.n(60, 400), shards=ctx.n(3, 4))
 
 
 def replay(ctx, path):
+    add_local_known(ctx)
     obj = json.load(open(path))
     rep = obj.get("replay", {})
     if e2e_common.is_e2e_replay(rep):
